@@ -162,7 +162,7 @@ def generate(rng, tier):
         case["kw"] = {"k": rng.randrange(-1, 6)}
     elif fn == "pagerank":
         case["kw"] = {"damping": rng.choice([0.5, 0.85, 0.99, 0.125, 0.3]), "tol": rng.choice([1e-3, 1e-6, 1e-10, 0.0]),
-                      "max_iter": rng.choice([1, 3, 100, 5000])}
+                      "max_iter": rng.choice([0, 1, 3, 100, 5000])}
         if case["kw"]["tol"] == 0.0:
             case["kw"]["max_iter"] = rng.choice([1, 3, 100])
     elif fn == "louvain":
